@@ -297,6 +297,11 @@ static int32 pkcs12pbe(psPool_t *pool, unsigned char *password, uint32 passLen,
     int32 i, j, copy, count, cpyLen, binsize, plen;
 
     *out = NULL;
+    if (iter < 0 || iter > PS_PBE_MAX_ITERATIONS)
+    {
+        psTraceIntCrypto("PKCS#12 iteration count %d out of range\n", iter);
+        return PS_LIMIT_FAIL;
+    }
     Memset(diversifier, id, 64);
 
     for (i = 0; i < 64; )
